@@ -610,6 +610,20 @@ def de_morgan_tests(sources: Dict[str, str]) -> Dict[str, str]:
     return out
 
 
+def swap_equality_operands(sources: Dict[str, str]) -> Dict[str, str]:
+    """`a == b` -> `b == a`, `a != b` -> `b != a` for every single-operator comparison whose right side is not a constant."""
+    out = {}
+    for p, s in sources.items():
+        tree = ast.parse(s)
+        for n in ast.walk(tree):
+            if isinstance(n, ast.Compare) and len(n.ops) == 1 and isinstance(n.ops[0], (ast.Eq, ast.NotEq)) and not isinstance(n.comparators[0], ast.Constant) \
+                    and not isinstance(n.left, ast.Constant):
+                n.left, n.comparators[0] = n.comparators[0], n.left
+        ast.fix_missing_locations(tree)
+        out[p] = ast.unparse(tree)
+    return out
+
+
 def rename_all_locals(sources: Dict[str, str]) -> Dict[str, str]:
     out = {}
     for p, s in sources.items():
@@ -683,6 +697,8 @@ def _worker(args):
             overlay = temp_before_return(sources)
         elif m.old == "<de-morgan-tests>":
             overlay = de_morgan_tests(sources)
+        elif m.old == "<swap-equality-operands>":
+            overlay = swap_equality_operands(sources)
         elif m.old == "<keywords-at-call-sites>":
             overlay = keywords_at_call_sites(sources)
         elif m.old == "<swap-if-else>":
@@ -732,6 +748,7 @@ GENERIC = [
     M("loop guards `if c: continue` rewritten as `if not c: <rest of the body>`", "", None, "<invert-continue-guards>", "", kind="equiv"),
     M("every non-trivial return value goes through a temporary (t = E; return t)", "", None, "<temp-before-return>", "", kind="equiv"),
     M("De Morgan: every boolean if / while / conditional test rewritten as the negation of the dual", "", None, "<de-morgan-tests>", "", kind="equiv"),
+    M("operands of every == / != comparison swapped", "", None, "<swap-equality-operands>", "", kind="equiv"),
     M("methods of every class in reverse source order", "", None, "<reverse-methods>", "", kind="equiv"),
     M("swap the branches of every plain if/else under the negated test", "", None, "<swap-if-else>", "", kind="equiv"),
     M("annotate every local that is assigned once (x = v  ->  x: object = v)", "", None, "<annotate-single-assignments>", "", kind="equiv"),
